@@ -249,6 +249,9 @@ class Hare(SimpleVoteTransferer):
                   cand_alloc: Dict[RankedVoteType, Number],
                   n_sub: int,
                   ) -> None:
+        if n_sub == int(n_sub):
+            # whole ballots are drawn; the quota may be an integral Fraction
+            n_sub = int(n_sub)
         random.seed(self.seed)
         subtractions = distribute_n_random(
             cand_alloc, n_sub, limit_by_weight=True
